@@ -397,6 +397,7 @@ class RegWorld(World):
         else:
             # once per connection for every route declared so far
             cut_short = {i for i, r in enumerate(reconnects) if any(o.get('mid_startup') for o in self.scenario['ops'] if o['op'] == 'reconnect')}
+            carried_over = set()
             for conn in range(0, self.connection + 1):
                 if conn in cut_short:
                     continue        # this connection was lost during its start-up registrations
@@ -408,6 +409,13 @@ class RegWorld(World):
                     explicit = sum(1 for c in calls.values() if c['verb'] == 'register' and tuple(pfx_comps(c['prefix'])) == key)
                     if explicit:
                         continue
+                    if r['conn'] == conn and conn < self.connection and conn_cmds.get(key, 0) == 0:
+                        carried_over.add(key)
+                        # declared while this connection was up, and the connection was lost later: its command may still have
+                        # been waiting for its turn (one command at a time, one per clock reading) - the next connection counts
+                        continue
+                    if r['conn'] == conn - 1 and r['conn'] >= 0 and key in carried_over and conn_cmds.get(key, 0) == 2:
+                        continue        # ... and that waiting command went out over this connection, next to the start-up's own
                     if conn_cmds.get(key, 0) != 1:
                         self.violate('C17', 'route-registration-count', fe, 'route',
                                      f'route {_n(r["prefix"])} was registered {conn_cmds.get(key, 0)}x on connection {conn}, expected once')
@@ -492,7 +500,7 @@ def _cnt(counter):
 
 def generate(rng, seed, tier='quick'):
     fe = rng.choice(['v1', 'v2'])
-    cfg = {'frontend': fe, 'turn_cost_us': rng.choice([0, 0, 1, 3]), 'wall_gran_us': rng.choice([1000, 1000, 2000, 8000]),
+    cfg = {'frontend': fe, 'turn_cost_us': rng.choice([0, 0, 1, 3]), 'wall_gran_us': rng.choice([1000, 1000, 2000, 8000, 16000, 50000]),
            'debug_log': rng.random() < 0.2}
     if rng.random() < 0.15:
         cfg['other_command_first'] = True
